@@ -298,8 +298,6 @@ def plan(inp, forms, with_short=True):
                 runs.append(dict(c, xml="in_xmlnsxml.xml", ctrl="xmlnsXml:" + fkey(c)))
             if "dtd" in ctl:
                 runs.append(dict(c, xml="in_nodtd.xml", ctrl="noDtd:" + fkey(c)))
-        if c["out"] == "sourceTree" and "cdataelems" in ctl:
-            runs.append(dict(c, xml="in_nocdata.xml", xsl="main_nocdata.xsl", ctrl="noCdataElems:" + fkey(c)))
     runs += sel
     if with_short:
         cbs = [c for c in sel if c["out"] == "callback"]
